@@ -71,6 +71,10 @@ var Tags = []TagClass{
 	{",string", `json:",string"`},
 }
 
+func tagText(tag, pos int) string {
+	return strings.Replace(Tags[tag].Fmt, "%d", fmt.Sprint(pos), 1)
+}
+
 // PosNames are the field names by position.
 var PosNames = []string{"Ab", "FieldTwo", "Cz", "Dwxyz"}
 
@@ -244,7 +248,7 @@ func (s StructSpec) String() string {
 	for i, f := range s {
 		p := s.FieldName(i) + " " + Kinds[f.Kind].Name
 		if f.Tag != 0 {
-			p += " `" + fmt.Sprintf(Tags[f.Tag].Fmt, i) + "`"
+			p += " `" + tagText(f.Tag, i) + "`"
 		}
 		parts = append(parts, p)
 	}
@@ -269,7 +273,7 @@ func (s StructSpec) Type() reflect.Type {
 		k := Kinds[f.Kind]
 		fs[i] = reflect.StructField{Name: s.FieldName(i), Type: k.Type, Anonymous: k.Embedded}
 		if f.Tag != 0 {
-			fs[i].Tag = reflect.StructTag(fmt.Sprintf(Tags[f.Tag].Fmt, i))
+			fs[i].Tag = reflect.StructTag(tagText(f.Tag, i))
 		}
 	}
 	t := reflect.StructOf(fs)
@@ -287,7 +291,12 @@ func ForgetTypes() {
 // NewValue builds an addressable value of the type with field i set to its
 // value number vals[i]; the result is the pointer (reflect.Value of kind Ptr).
 func (s StructSpec) NewValue(vals []int) reflect.Value {
-	p := reflect.New(s.Type())
+	return s.NewValueOf(s.Type(), vals)
+}
+
+// NewValueOf is NewValue with the type already at hand.
+func (s StructSpec) NewValueOf(t reflect.Type, vals []int) reflect.Value {
+	p := reflect.New(t)
 	for i, f := range s {
 		p.Elem().Field(i).Set(Kinds[f.Kind].Vals[vals[i]].New())
 	}
